@@ -181,6 +181,19 @@ pub enum Edit {
     LongNumber(u16),
     OpenComment(u16),
     ReplaceToken(u16, u16),
+    /// the text stays well formed, its numbers become odd: reversed ranges, bounds and tag
+    /// numbers at type limits, negative sizes
+    SwapNumbers(u16, u16),
+    ReplaceNumber(u16, u16),
+}
+
+const NUMBERS: [&str; 24] = [
+    "0", "1", "-1", "5", "127", "128", "-129", "255", "256", "300", "1000", "-500", "65535", "65536", "70000", "-32769", "2147483647", "2147483648", "4294967295", "4294967296", "9223372036854775807", "-9223372036854775808", "9223372036854775808",
+    "18446744073709551615",
+];
+
+fn is_number(t: &str) -> bool {
+    t.chars().all(|c| c.is_ascii_digit() || c == '-') && t.chars().any(|c| c.is_ascii_digit())
 }
 
 const VOCAB: [&str; 64] = [
@@ -203,6 +216,8 @@ pub fn edit_strategy() -> impl Strategy<Value = Edit> {
         1 => any::<u16>().prop_map(Edit::LongNumber),
         1 => any::<u16>().prop_map(Edit::OpenComment),
         3 => (any::<u16>(), any::<u16>()).prop_map(|(a, b)| Edit::ReplaceToken(a, b)),
+        3 => (any::<u16>(), any::<u16>()).prop_map(|(a, b)| Edit::SwapNumbers(a, b)),
+        4 => (any::<u16>(), any::<u16>()).prop_map(|(a, b)| Edit::ReplaceNumber(a, b)),
     ]
 }
 
@@ -244,6 +259,19 @@ pub fn apply(text: &str, edits: &[Edit]) -> String {
                 }
             }
             Edit::OpenComment(p) => toks.insert(scale(*p, n), "/*".to_string()),
+            Edit::SwapNumbers(p, q) => {
+                let nums: Vec<usize> = (0..n).filter(|i| is_number(&toks[*i])).collect();
+                if nums.len() >= 2 {
+                    let (a, b) = (nums[scale(*p, nums.len() - 1)], nums[scale(*q, nums.len() - 1)]);
+                    toks.swap(a, b);
+                }
+            }
+            Edit::ReplaceNumber(p, v) => {
+                let nums: Vec<usize> = (0..n).filter(|i| is_number(&toks[*i])).collect();
+                if !nums.is_empty() {
+                    toks[nums[scale(*p, nums.len() - 1)]] = NUMBERS[scale(*v, NUMBERS.len() - 1)].to_string();
+                }
+            }
             other => char_edits.push(other),
         }
     }
@@ -305,7 +333,7 @@ pub fn repo_modules() -> Vec<String> {
     out
 }
 
-const RULE: &str = "valid texts (generator output of the front-end profile and the literal modules of /repo/tests, read as data) with 1..4 edits from {delete / duplicate / swap / insert / replace a token, delete / insert a character, truncate at a token or byte, replace a number by an over-long one, open a block comment}, plus token soups over the ASN.1 vocabulary; pipeline: Tokenizer::parse -> Model::try_from -> try_resolve (and MultiModuleResolver) -> to_rust -> to_protobuf. Oracle: Ok or Err, no panic except the documented 'unclosed comment blocks' one when the input really has an unterminated '/*'; parse::Error::token(), when present, lies inside the input; a case running > 10 s stops the worker and is confirmed 3x in isolation. Non-trivial: the text tokenizes to >= 5 tokens and differs from the valid text it was derived from; distinct = hash of the text.";
+const RULE: &str = "valid texts (generator output of the front-end profile and the literal modules of /repo/tests, read as data) with 1..4 edits from {delete / duplicate / swap / insert / replace a token, delete / insert a character, truncate at a token or byte, replace a number by an over-long one, swap two numbers, replace a number by a boundary value (reversed ranges, bounds at type limits), open a block comment}, plus token soups over the ASN.1 vocabulary; pipeline: Tokenizer::parse -> Model::try_from -> try_resolve (and MultiModuleResolver) -> to_rust -> to_protobuf. Oracle: Ok or Err, no panic except the documented 'unclosed comment blocks' one when the input really has an unterminated '/*'; parse::Error::token(), when present, lies inside the input; a case running > 10 s stops the worker and is confirmed 3x in isolation. Non-trivial: the text tokenizes to >= 5 tokens and differs from the valid text it was derived from; distinct = hash of the text.";
 
 pub fn run(ctx: Ctx) -> i32 {
     let report = Report::new(ctx.clone(), RULE);
